@@ -100,8 +100,12 @@ func toInt(v interface{}) int {
 func perform(tr *ctree.Tree, o *HOp, l *ctree.Leaf, now func() int64) (got *ctree.Leaf) {
 	switch o.Kind {
 	case "add":
+		var v interface{} = o.Val
+		if o.Nil {
+			v = nil
+		}
 		o.Call = now()
-		err := tr.Add(o.Path, o.Val)
+		err := tr.Add(o.Path, v)
 		o.Ret = now()
 		if err != nil {
 			o.Err = err.Error()
